@@ -94,7 +94,8 @@ func (w *rw) start() {
 // settle waits for quiescence and gives all files virtual time stamps.
 func (w *rw) settle() {
 	synctest.Wait()
-	vos.FixTree(w.root)
+	vos.FixTree(w.stageDir)
+	vos.FixTree(w.finalDir)
 }
 
 // stop tears the stage down at quiescence so that the bubble can end.
